@@ -243,7 +243,7 @@ def run(tier, seed):
     cases += f[0]
     if f[1]:
       fails.append(f[1])
-  return dict(name=NAME, cases=cases, distinct=cases, bound='5 scope programs x 5 variable layouts x 14 mutable filters (+ linen module-object checks); all write sequences of length <= 3 over 7 writes through root / child / grand-child scopes',
+  return dict(name=NAME, cases=cases, distinct=cases, bound='5 scope programs x 5 variable layouts x 14 mutable filters (+ linen module-object checks, 6 kinds of filter object reused after a capturing apply, perturb on signed zeros / denormals / inf / nan); all write sequences of length <= 3 over 7 writes through root / child / grand-child scopes',
               failures=fails[:2], error=None)
 
 
@@ -335,6 +335,45 @@ def _linen_check():
     if not np.allclose(np.asarray(y), base):
       return n, dict(inputs=dict(program='module that applies a frozen backbone inside its method', capture_intermediates=repr(cap)[:40]),
                      observed='capture_intermediates on the outer call changed the primary output', violated='observation-inert')
+  # the `mutable` FILTER OBJECT the caller passes is an argument too: it comes back unchanged, and reusing it gives the same result
+  import copy as _copy
+  for kind, mk in (('set', lambda: {'stats'}), ('list', lambda: ['stats']), ('tuple', lambda: ('stats',)), ('frozenset', lambda: frozenset({'stats'})),
+                   ('DenyList(set)', lambda: nn.DenyList({'params'})), ('str', lambda: 'stats')):
+    for cap in (True, (lambda mdl, method_name: True)):
+      n += 1
+      mut = mk()
+      snap = _copy.deepcopy(mut)
+      inputs = dict(program='linen Block with sow', mutable=f'{kind} {snap!r}', capture_intermediates=repr(cap)[:30], step='filter object reused after a capturing apply')
+      try:
+        bb.apply(bv, x, mutable=mut, capture_intermediates=cap)
+        same = (mut == snap) if kind != 'DenyList(set)' else (mut.deny == snap.deny)
+        if not same:
+          return n, dict(inputs=inputs, observed=f'the filter object passed as `mutable` was changed by apply: {snap!r} -> {mut!r}', violated='inputs-unchanged')
+        y_after, st_after = bb.apply(bv, x, mutable=mut)
+        y_ref, st_ref = bb.apply(bv, x, mutable=mk())
+        if sorted(st_after.keys()) != sorted(st_ref.keys()) or np.asarray(y_after).tobytes() != np.asarray(y_ref).tobytes():
+          return n, dict(inputs=inputs, observed=f'reusing the filter object returns collections {sorted(st_after.keys())}, a fresh equal filter returns {sorted(st_ref.keys())}', violated='returned-set')
+      except Exception as e:  # noqa
+        return n, dict(inputs=inputs, observed=f'raised {e!r}'[:300], violated='apply')
+  # perturb without a perturbation collection is the identity - bit for bit (signed zeros, denormals, inf, nan)
+  class Probed(nn.Module):
+    probes: bool
+
+    @nn.compact
+    def __call__(self, x):
+      h = x * 1.0
+      if self.probes:
+        h = self.perturb('h', h)
+      return h, 1.0 / h, jnp.arctan2(h, -1.0)
+  special = jnp.asarray([-0.0, 0.0, 1e-45, -1e-45, 1.5, -2.5, jnp.inf, -jnp.inf, jnp.nan], jnp.float32)
+  for probes_vars in ('no perturbation collection', 'immutable other collections only'):
+    n += 1
+    vs = {} if probes_vars == 'no perturbation collection' else {'stats': {'k': jnp.zeros(())}}
+    want = Probed(False).apply(vs, special)
+    got = Probed(True).apply(vs, special)
+    if any(np.asarray(a).tobytes() != np.asarray(b).tobytes() for a, b in zip(want, got)):
+      return n, dict(inputs=dict(program='module with self.perturb on an activation holding -0.0, denormals, inf, nan', variables=probes_vars),
+                     observed=f'perturb without a perturbations collection changed the output bits: {[np.asarray(a).tolist() for a in got]} vs {[np.asarray(a).tolist() for a in want]}'[:400], violated='observation-inert')
   return n, None
 
 
